@@ -37,10 +37,12 @@ CHECKS = {
         'level': 'proof',
         'text': 'Model::read_slice is proved, for every byte slice, to never index out of range, to return an error when the input is shorter '
                 'than the 25-byte header or the header differs, and on success to return exactly slice[25 + size ..] where size is the byte count '
-                'reported by the payload decoder (no overflow, in range).',
+                'reported by the payload decoder; under the assumed codec inverse, header ++ enc(m) ++ tail reads back as (m, tail). Model::read is '
+                'proved against an abstract reader (may end, fail, or return short reads anywhere): Ok only for magic ++ decodable payload, and '
+                'every such stream from a non-failing reader IS accepted however the reads are chunked. to_vec returns magic ++ enc(model).',
         'design_ref': 'DESIGN.md section 5.C07',
-        'note': 'ASSUMED: bincode::decode_from_slice returns size <= input length (its derive-generated decoders are outside the unit); R6 byte list '
-                'generated from the literal. Not covered: encoder/decoder symmetry, truncation inside the payload, io::Read/Write paths.',
+        'note': 'ASSUMED: bincode decoder returns size <= input length and is the inverse of the encoder (codec inverse, uninterpreted enc/decodable); '
+                'assumed trait contracts for io::Read/Write; R6 byte list generated from the literal. Not covered: the derive-generated codecs themselves.',
         'technique': TECH + '; header/remainder arithmetic against an assumed decoder contract',
     },
     'C08': {
@@ -55,11 +57,12 @@ CHECKS = {
     },
     'C15': {
         'level': 'proof',
-        'text': 'KyteaWsConstFilter::filter is proved, for every sentence satisfying the shape invariant and every character type, to produce exactly '
-                'the rule (boundary i cleared iff types i and i+1 equal the filter type, otherwise unchanged), to leave every other field untouched, '
-                'to keep the invariant, with every get_unchecked index proved in range; idempotence and only-clears are lemmas over the rule.',
+        'text': 'KyteaWsConstFilter::filter and SplitLinebreaksFilter::filter are proved, for every well-formed sentence, to produce exactly their rule '
+                '(boundary i cleared iff types i and i+1 equal the filter type / set iff character i or i+1 is CR or LF; otherwise unchanged), to leave '
+                'every other field untouched, to keep the invariant, with every unchecked index, unchecked str slice (at a proved char boundary) and '
+                'unwrap_unchecked proved safe; idempotence is a lemma over each rule.',
         'design_ref': 'DESIGN.md section 5.C15',
-        'note': 'Not covered by proof: grapheme filter and pattern tagger (external crates), line-break filter (see DESIGN); those are only exercised by the bounded thorough sweep.',
+        'note': 'Not covered by proof: grapheme filter (unicode-segmentation) and pattern tagger (hashbrown); the grapheme filter is exercised by the bounded sweep with known-answer cluster boundaries.',
         'technique': TECH + '; rule as a spec function + frame postcondition',
     },
     'C16': {
